@@ -151,17 +151,24 @@ class Interposer:
                 self.busy -= 1
 
     def _enter(self, point):
+        # the hook may raise (an exception / signal delivered at this primitive boundary): stay consistent
         self.busy += 1
         if self.busy == 1:
-            self.reconcile()
-            self._call_hook('before:' + point)
+            try:
+                self.reconcile()
+                self._call_hook('before:' + point)
+            except BaseException:
+                self.busy -= 1
+                raise
         return self.busy == 1
 
     def _leave(self, point, top):
-        if top:
-            self.reconcile()
-            self._call_hook('after:' + point)
-        self.busy -= 1
+        try:
+            if top:
+                self.reconcile()
+                self._call_hook('after:' + point)
+        finally:
+            self.busy -= 1
 
     def ino_of_fd(self, fd):
         try:
